@@ -9,7 +9,38 @@ def absOf (a d : Nat) (sa sd : Bool) : JoypadSpec.Abs where
   bit4 := !sd
   bit5 := !sa
 
+/-- two actions in a row, the interrupt collected once afterwards -/
+def checkC17Seq (l : Line) : Verdict :=
+  let a := l.inN "a"; let d := l.inN "d"
+  let sa := l.inN "sa" == 1; let sd := l.inN "sd" == 1
+  let mk (op : String) (arg : Nat) : Joypad.Action × JoypadSpec.Ev :=
+    let k : Fin 8 := ⟨arg % 8, Nat.mod_lt _ (by decide)⟩
+    match op with
+    | "p" => (.press k, .press k)
+    | "r" => (.release k, .release k)
+    | _ => (.select arg, .write arg)
+  let (act1, ev1) := mk (l.inS "op") (l.inN "arg")
+  let (act2, ev2) := mk (l.inS "op2") (l.inN "arg2")
+  let s0 : Joypad.State := ⟨a, d, sa, sd, false⟩
+  let s1 := Joypad.step s0 act1
+  let s2 := Joypad.step s1 act2
+  let (i1, s3) := Joypad.takeIrq s2
+  let (i2, _) := Joypad.takeIrq s3
+  let a0 := absOf a d sa sd
+  let a1 := a0.apply ev1
+  let a2 := a1.apply ev2
+  let falls := JoypadSpec.someLineFalls a0 a1 || JoypadSpec.someLineFalls a1 a2
+  let ii1 := l.outN "i1" == 1; let ii2 := l.outN "i2" == 1
+  if l.outN "v1" % 64 != JoypadSpec.p1Value a1 then .specDiff s!"P1 after the first action: impl={l.outN "v1" % 64} spec={JoypadSpec.p1Value a1}"
+  else if l.outN "v2" % 64 != JoypadSpec.p1Value a2 then .specDiff s!"P1 after the second action: impl={l.outN "v2" % 64} spec={JoypadSpec.p1Value a2}"
+  else if ii1 != falls then .specDiff s!"irq after two actions: impl={ii1} spec(some line fell in either step)={falls}"
+  else if ii2 then .specDiff "irq reported twice"
+  else if Joypad.getValue s2 != l.outN "v2" then .modelDiff s!"v2 model={Joypad.getValue s2} impl={l.outN "v2"}"
+  else if i1 != ii1 || i2 != ii2 then .modelDiff s!"irq model={i1},{i2} impl={ii1},{ii2}"
+  else .ok ii1
+
 def checkC17 (l : Line) : Verdict :=
+  if l.stream == "c17.seq" then checkC17Seq l else
   let a := l.inN "a"; let d := l.inN "d"
   let sa := l.inN "sa" == 1; let sd := l.inN "sd" == 1
   let arg := l.inN "arg"
